@@ -352,6 +352,65 @@ def verify_sample_frames(run, tier):
     run.hashes.update(sess.repo.hashes)
 
 
+def verify_request_start(run, tier):
+    """the images a sample is attributed to are those "announced earlier in the stream": a callstack request on a parser
+    object that served earlier requests (arbitrary content of its image tables) starts its CallstacksParser with empty
+    tables, and hands it the traces of this request unchanged"""
+    from pyvc.interp import GenVal
+    from checks import c13
+    sess = Session()
+    it = sess.it
+    holder = {}
+    c13.install_contracts(sess, holder)
+    fq = 'pykdebugparser.pykdebugparser:PyKdebugParser.callstacks'
+    prefix = 'C15/callstacks'
+    traces_calls = []
+
+    def traces_contract(it_, func, args, kwargs, node):
+        r = Obj(ClassVal('TraceStream', None, 'plain'), {})
+        traces_calls.append((args, kwargs, r))
+        return r
+    it.contracts['pykdebugparser.pykdebugparser:PyKdebugParser.traces'] = traces_contract
+
+    def thunk(ctx):
+        del traces_calls[:]
+        self_, sets, _ = c13.setup(sess, ctx)
+        n = z3.Int('old.images')
+        ctx.facts.append(n >= 0)
+        for nm in ('dyld_addresses', 'dyld_uuids'):
+            self_.fields[nm] = SymList('old.' + nm, n, lambda j, nm=nm: SInt(z3.Select(z3.Array('old.%s.arr' % nm, I, I), j)), origin='old-images')
+        reader = Obj(ClassVal('Reader', None, 'plain'), {})
+        codes = Obj(ClassVal('Codes', None, 'plain'), {})
+        g = it.call(it.lib.getattr_(it, self_, 'callstacks'), [reader, codes], {})
+        ok = isinstance(g, GenVal) and g.func.name == 'feed_generator' and isinstance(g.frame.vars.get('self'), Obj)
+        ctx.oblige(prefix + '/is-the-callstack-machine-over-the-traces', z3.BoolVal(bool(ok)))
+        if not ok:
+            return g
+        cp = g.frame.vars['self']
+        for nm in ('dyld_addresses', 'dyld_uuids'):
+            t = cp.fields.get(nm)
+            ln = t.length if isinstance(t, SymList) else (z3.IntVal(len(t.items)) if isinstance(t, PList) and t.is_concrete() else None)
+            ctx.oblige('%s/starts-with-an-empty-image-table.%s' % (prefix, nm), (ln == 0) if ln is not None else z3.BoolVal(False))
+        same = len(traces_calls) == 1 and g.frame.vars.get('generator') is traces_calls[0][2] and not traces_calls[0][1] \
+            and len(traces_calls[0][0]) == 3 and traces_calls[0][0][1] is reader and traces_calls[0][0][2] is codes
+        ctx.oblige(prefix + '/consumes-exactly-the-traces-of-this-request', z3.BoolVal(bool(same)))
+        return g
+    import checks.c02 as c02
+    before = list(run.pending_failures)
+    c02._explore(run, tier, sess, thunk, fq, prefix)
+    mine = [x for x in run.pending_failures if x not in before]
+    if mine:
+        out = native({'kind': 'api_history_case'}, timeout=900)
+        for x in mine:
+            run.pending_failures.remove(x)
+            if out.get('violates'):
+                run.violation(x[0], {'request': {'kind': 'api_history_case'}, 'native': out, 'solver_output': '%s (%s)' % (x[1], x[2])}, True, what=out.get('what', ''))
+            elif x[1] == 'refuted':
+                run.violation(x[0], {'request': None, 'solver_output': x[2]}, False, what='obligation %s no longer holds' % x[0])
+            else:
+                run.undecide(x[0], x[2])
+
+
 def run_check(run, tier):
     run.pending_failures = []
     run.trusted += ['pyvc interpreter + (array, length) list model', 'z3 5.1 / cvc5',
@@ -359,6 +418,7 @@ def run_check(run, tier):
     run.assumptions += ['frames are 64-bit words; image load addresses are ints',
                         ]
     verify_sample_frames(run, tier)
+    verify_request_start(run, tier)
     verify_insert(run, tier)
     verify_feed(run, tier)
     lemmas(run, tier)
